@@ -620,7 +620,8 @@ func (g *Graph) passesWithin(start *cfg.Block, lo, hi token.Pos, pass func(ast.N
 	var walk func(b *cfg.Block) bool
 	walk = func(b *cfg.Block) bool {
 		if seen[b.Index] {
-			return true
+			// coming back to the start block is the next iteration of a condition-less loop: the region was left without passing
+			return b != start
 		}
 		seen[b.Index] = true
 		inside := b == start
